@@ -340,7 +340,16 @@ impl G {
             let mut uses_rec2 = Reqs::new();
             for fi in 0..n {
                 let raw = !plain && self.rng.chance(1, 12);
-                let ident = if raw { self.rng.pick(RAW_KEYWORDS).to_string() } else { snake_ident(&mut self.rng) };
+                let mut ident = if raw { self.rng.pick(RAW_KEYWORDS).to_string() } else { snake_ident(&mut self.rng) };
+                // leading / trailing / doubled underscores where only the case may change (camelCase has no single
+                // reading for them)
+                if !plain && !raw && ra != RenameAll::Camel && self.rng.chance(1, 15) {
+                    ident = match self.rng.below(3) {
+                        0 => format!("_{ident}"),
+                        1 => format!("{ident}_"),
+                        _ => ident.replacen('_', "__", 1),
+                    };
+                }
                 if out.iter().any(|f| f.def.ident == ident) {
                     continue 'retry;
                 }
